@@ -1,11 +1,5 @@
-/- Driver for C10 (stub — not built yet) -/
-import Driver.Common
+/- C10 shares the runtime-session driver of C02 -/
+import Driver.C02
 namespace Driver.C10
-open Driver
-
-def main (stdin : IO.FS.Stream) : IO Unit := do
-  let cases ← readCases stdin
-  for c in cases do
-    IO.println s!"fail {(words c.header)[1]?.getD "?"} op=0 kind=unimplemented"
-
+def main (stdin : IO.FS.Stream) : IO Unit := Driver.C02.main "c10" stdin
 end Driver.C10
